@@ -52,6 +52,18 @@ fn cfgs(thorough: bool) -> Vec<K> {
     }
 }
 
+/// remove the oracle from a world: configuration (through the contract's own storage types) and the
+/// simulator's record of what the oracle received
+fn strip_oracle(s: &mut Sim) {
+    if let Ok(mut c) = staking::state::CONFIG.load(&s.w.kv) {
+        c.protocol_chain_config.oracle_address = None;
+        let _ = staking::state::CONFIG.save(&mut s.w.kv, &c);
+    }
+    s.w.oracle_last = None;
+    s.w.oracle_count = 0;
+    s.w.k.oracle = false;
+}
+
 // ---------------------------------------------------------------- C01 / C15: accounting search
 fn acct_plans(prop: &'static str, thorough: bool) -> Vec<Plan> {
     let mut out = Vec::new();
@@ -104,6 +116,30 @@ fn acct_plans(prop: &'static str, thorough: bool) -> Vec<Plan> {
             }
             g
         }));
+        if prop == "C15" && k.oracle {
+            // oracle-less twin in lock-step: the same action on the same world with the oracle address
+            // removed must succeed / fail alike, have identical effects, and post nothing
+            sc.extra_step = Some(Box::new(|pre, a, ap, post| {
+                let mut v = vec![];
+                let mut t = pre.clone();
+                strip_oracle(&mut t);
+                let apt = t.apply(a);
+                let mut want = post.clone();
+                strip_oracle(&mut want);
+                strip_oracle(&mut t);
+                let no_oracle = |evs: &Vec<Ev>| -> Vec<Ev> { evs.iter().filter(|e| !matches!(e, Ev::Oracle { .. })).cloned().collect() };
+                if apt.out.events.iter().any(|e| matches!(e, Ev::Oracle { .. })) {
+                    v.push(mwsim::explore::viol("C15", "twin.posted_without_oracle", format!("{} posted to an oracle although none is configured", act_label(a))));
+                }
+                if apt.out.ok != ap.out.ok {
+                    v.push(mwsim::explore::viol("C15", "twin.outcome_differs", format!("{}: ok={} with oracle, ok={} without ({:?} / {:?})", act_label(a), ap.out.ok, apt.out.ok, ap.out.err, apt.out.err)));
+                } else if t.w != want.w || t.m != want.m || no_oracle(&apt.out.events) != no_oracle(&ap.out.events) {
+                    let what = if t.w.kv != want.w.kv { "contract storage" } else if t.w != want.w { "bank / IBC / token-factory effects" } else if t.m != want.m { "batches / packets" } else { "emitted messages" };
+                    v.push(mwsim::explore::viol("C15", "twin.effects_differ", format!("{}: {what} differ between the configured-oracle and oracle-less worlds", act_label(a))));
+                }
+                v
+            }));
+        }
         let depth = if thorough { 6 } else { 4 };
         out.push(Plan { sc, depth, required: vec!["goal:refund_resent", "goal:first_stake_into_empty_pool", "goal:ownerless_stake_swept", "goal:withdrawn", "SubmitBatch:ok", "HookReceiveRewards:ok", "HookReceiveUnstakedTokens:ok"] });
     }
